@@ -1,0 +1,33 @@
+//go:build verif
+
+package vm
+
+// Contracts checked by /verif (gvc). This file contains comments only and is compiled only with -tags verif.
+
+// ---- C12: plasma arithmetic ---------------------------------------------------------------------------------
+
+// plasma earned by proof-of-work of difficulty d: floor(d/1500) capped at 94500
+//@ spec powPlasma(d int) int = min(d / 1500, 94500)
+// plasma provided by a fused QSR amount a: 2100 per full 10^8 units, capped at 5000 units
+//@ spec fusedPlasma(a int) int = ite(a <= 0, 0, min(a / 100000000, 5000) * 2100)
+
+//@ func DifficultyToPlasma(difficulty)
+//@   ensures[value] result == powPlasma(difficulty)
+//@   modifies nothing
+
+//@ func GetDifficultyForPlasma(requiredPlasma) -> (d, err)
+//@   ensures[cap] requiredPlasma > 94500 ==> err != nil
+//@   ensures[value] requiredPlasma <= 94500 ==> err == nil && d == requiredPlasma * 1500
+//@   modifies nothing
+
+//@ func FussedAmountToPlasma(amount)
+//@   ensures[nil] amount == nil ==> result == 0
+//@   ensures[value] amount != nil ==> result == fusedPlasma(val(amount))
+//@   modifies nothing
+
+//@ lemma plasma_difficulty_roundtrip
+//@   vars p uint64
+//@   assume p <= 94500
+//@   let r = GetDifficultyForPlasma(p)
+//@   assert[inverse] powPlasma(r.0) == p
+//@   assert[monotone] forall a int, b int :: 0 <= a && a <= b ==> powPlasma(a) <= powPlasma(b)
